@@ -69,7 +69,21 @@ class Run:
 
         self.ctx = ctx
         self.V = V
-        self.rig = GemRig(role="equipment", t3=2.0)
+        import secsgem.gem
+
+        store = self.cb_store = {}
+
+        class Equipment(secsgem.gem.GemEquipmentHandler):
+            """An equipment that keeps the values of its callback constants in a store of its own (documented overrides)."""
+
+            def on_ec_value_request(self, ecid, ec):
+                return ec.value_type(store[ec.ecid])
+
+            def on_ec_value_update(self, ecid, ec, value):
+                store[ec.ecid] = value
+
+        self.ect0 = ctx.rng.choice([10, 30, 45])       # settings option: establish communications time-out (also constant 1)
+        self.rig = GemRig(role="equipment", t3=2.0, handler_cls=Equipment, establish_communication_timeout=self.ect0)
         self.ok = self.rig.establish()
         h = self.h = self.rig.handler
         # own tables (the reference is what the harness configured)
@@ -86,6 +100,16 @@ class Run:
         for k, (fmt, lo, hi, d, name, unit) in self.ec.items():
             h.equipment_constants[k] = EquipmentConstant(k, name, lo, hi, d, unit, getattr(V, fmt), use_callback=False)
         self.ecval = {k: v[3] for k, v in self.ec.items()}
+        # constants whose value does not live in the EquipmentConstant object: a callback constant (store above, holding another
+        # value than the declared default) and the two constants the library predefines (settings / internal state)
+        self.ec[28] = ("U2", 0, 100, 7, "ec_callback", "")
+        h.equipment_constants[28] = EquipmentConstant(28, "ec_callback", 0, 100, 7, "", V.U2, use_callback=True)
+        store[28] = 33
+        self.ecval[28] = 33
+        self.ec[1] = ("I2", 10, 120, 10, "EstablishCommunicationsTimeout", "sec")
+        self.ecval[1] = self.ect0
+        self.ec[2] = ("I4", 0, 2, 1, "TimeFormat", "")
+        self.ecval[2] = 1
         self.al = {100: ("al100", "text one", 3), 101: ("al101", "second", 65), 70000: ("al70000", "x-text", 1)}
         for k, (name, text, code) in self.al.items():
             h.alarms[k] = Alarm(k, name, text, code, 5000 + len(h.alarms), 6000 + len(h.alarms))
@@ -178,8 +202,12 @@ class Run:
                     return
                 continue
             if ident == 1001:
-                if v[0] != "A" or len(v[1]) not in (12, 16):
-                    self.violation("clock-SV-format", got=e5ref.encode(v).hex())
+                # E5 TIME: 12 characters (TimeFormat 0), 16 characters (1) or the extended ISO form (2); TimeFormat is constant 2
+                tf = self.ecval.get(2, 1)
+                ok = v[0] == "A" and ((tf == 0 and len(v[1]) == 12) or (tf == 1 and len(v[1]) == 16) or
+                                      (tf == 2 and len(v[1]) >= 19 and bytes(v[1])[4:5] == b"-" and bytes(v[1])[10:11] == b"T"))
+                if not ok:
+                    self.violation("clock-SV-format", got=e5ref.encode(v).hex(), time_format=tf)
                     return
                 continue
             if ident in (1004, 1005):
@@ -218,6 +246,17 @@ class Run:
                 want.append([i, "", ""])
         if rows != want:
             self.violation("S1F12-differs", got=rows, want=want)
+
+    def snapshot(self):
+        """What the equipment reports for every constant right now (S2F13 for all of them): the observable state."""
+        keys = list(self.ec)
+        t = self.reply_tree(self.request(2, 13, e5ref.encode(("L", [("A", k.encode()) if isinstance(k, str) else ("U4", [k]) for k in keys]))), 2, 14, "S2F13-snapshot")
+        if t is None:
+            return None
+        if len(t[1]) != len(keys) or any(len(v[1]) != 1 for v in t[1]):
+            self.violation("S2F13-snapshot-malformed", got=[e5ref.encode(v).hex() for v in t[1]][:8])
+            return None
+        return {k: v[1][0] for k, v in zip(keys, t[1])}
 
     def ec_tree(self, k):
         fmt = self.ec[k][0]
@@ -326,12 +365,16 @@ class Run:
             entries.append((k, tree))
         body = e5ref.encode(("L", [("L", [id_tree(rng, k), t]) for k, t in entries]))
         self.hist.append(f"S2F15{[(k, t[0], t[1]) for k, t in entries]}")
-        before = {k: self.h.equipment_constants[k].value for k in self.ec}
+        before = self.snapshot()
+        if before is None:
+            return
         fr = self.request(2, 15, body)
         if fr is None:
             return
         self.kinds.add("S2F15")
-        after = {k: self.h.equipment_constants[k].value for k in self.ec}
+        after = self.snapshot()
+        if after is None:
+            return
         if (fr.stream, fr.function) == (2, 0):
             eac = "abort"
         else:
@@ -382,10 +425,12 @@ class Run:
         name, text, code = self.al[k]
         return [bytes([code | (0x80 if self.al_set[k] else 0)]), k, text]
 
-    def do_s5f3(self):
+    def do_s5f3(self, k=None, aled=None):
         rng = self.ctx.rng
-        k = rng.choice(list(self.al) + [77]) if rng.random() < 0.85 else 31337
-        aled = rng.choice([0x80, 0x80, 0x80, 0x00])
+        if k is None:
+            k = rng.choice(list(self.al) + [77]) if rng.random() < 0.85 else 31337
+        if aled is None:
+            aled = rng.choice([0x80, 0x80, 0x80, 0x00])
         self.hist.append(f"S5F3(ALED={aled:#x}, {k})")
         t = self.reply_tree(self.request(5, 3, e5ref.encode(("L", [("B", bytes([aled])), id_tree(rng, k)]))), 5, 4, "S5F3")
         if t is None:
@@ -436,11 +481,28 @@ class Run:
         if sorted(map(repr, rows)) != sorted(map(repr, want)):
             self.violation("S5F8-differs-from-enabled-alarms", got=rows, want=want)
 
-    def do_alarm_change(self):
+    def do_alarm_story(self):
+        """A longer life of one alarm: enabled, disabled, set and cleared in any order (a report depends only on the change and
+        on the enable state at that moment, not on what was reported before)."""
+        rng = self.ctx.rng
+        k = rng.choice(list(self.al))
+        self.ctx.count("alarm.stories")
+        for _ in range(rng.randint(6, 12)):
+            if self.bad:
+                return
+            op = rng.choice(["enable", "disable", "set", "clear", "set", "clear"])
+            if op in ("enable", "disable"):
+                self.do_s5f3(k, 0x80 if op == "enable" else 0x00)
+            else:
+                self.do_alarm_change(k, op == "set")
+
+    def do_alarm_change(self, k=None, to_set=None):
         rng = self.ctx.rng
         enabled = [a for a in self.al if self.al_enabled[a]]
-        k = rng.choice(enabled) if enabled and rng.random() < 0.6 else rng.choice(list(self.al))
-        to_set = (not self.al_set[k]) if rng.random() < 0.7 else rng.random() < 0.5
+        if k is None:
+            k = rng.choice(enabled) if enabled and rng.random() < 0.6 else rng.choice(list(self.al))
+        if to_set is None:
+            to_set = (not self.al_set[k]) if rng.random() < 0.7 else rng.random() < 0.5
         self.hist.append(f"{'set' if to_set else 'clear'}_alarm({k})")
         n0 = len(self.rig.own_primaries)
         done = threading.Event()
@@ -465,6 +527,9 @@ class Run:
         expect = 1 if changed and self.al_enabled[k] else 0
         self.ctx.count("alarm.changes_with_report" if expect else "alarm.changes_without_report")
         reports = [f for _, f in self.rig.own_primaries[n0:] if (f.stream, f.function) == (5, 1)]
+        if expect and not reports:
+            self.rig.confirm_absent(lambda: any((f.stream, f.function) == (5, 1) for _, f in self.rig.own_primaries[n0:]))
+            reports = [f for _, f in self.rig.own_primaries[n0:] if (f.stream, f.function) == (5, 1)]
         if len(reports) != expect:
             self.violation(f"S5F1-count-{len(reports)}-expected-{expect}", ident=k, changed=changed, enabled=self.al_enabled[k])
             return
@@ -490,7 +555,8 @@ class Run:
     def step(self):
         r = self.ctx.rng.random()
         for lim, fn in ((0.15, self.do_s1f3), (0.25, self.do_s1f11), (0.38, self.do_s2f13), (0.55, self.do_s2f15), (0.64, self.do_s2f29),
-                        (0.74, self.do_s5f3), (0.82, self.do_s5f5), (0.88, self.do_s5f7), (0.96, self.do_alarm_change), (1.01, self.do_update)):
+                        (0.74, self.do_s5f3), (0.82, self.do_s5f5), (0.88, self.do_s5f7), (0.94, self.do_alarm_change), (0.97, self.do_alarm_story),
+                        (1.01, self.do_update)):
             if r < lim:
                 fn()
                 return
@@ -498,7 +564,7 @@ class Run:
 
 def run(ctx):
     vtime.install()
-    n = 30 if ctx.quick else 160
+    n = 22 if ctx.quick else 160
     length = 25 if ctx.quick else 80
     for i in range(n):
         run_ = Run(ctx)
